@@ -468,19 +468,25 @@ def abi_mode(rec, item):
 
 
 def replay_poisson_layout():
-    """Real build: Poisson mode on a 2-species / 2-cell state with very different magnitudes: the t=0 record
-    must be close to the input entry by entry (a transposition error swaps 7 and 3000)."""
+    """Real build: Poisson mode on 2-species states with very different magnitudes, on square (2 cells) and NON-square (3 cells /
+    3 nodes) layouts, grid and graph: the t=0 record must be close to the input entry by entry (a transposition error swaps 7 and 3000)
+    and zero entries must stay zero."""
     try:
         from ..enginelegs import real_run
-        system = catalogue.build("none", ("grid", 2, 1, 1, 0))
-        system.state = [3000.0, 7.0, 0.0, 50000.0]
+        vals = [3000.0, 7.0, 0.0, 50000.0, 400.0, 90000.0]
         bad = 0
-        for seed in range(1, 6):
-            script = make_script(system, "tauleap", 0.01, policy="on_iteration", isp="Poisson", seed=seed)
-            data, _ = real_run(script, "tauleap", 0)
-            x0 = data[:4]
-            if abs(x0[0] - 3000) > 400 or abs(x0[1] - 7) > 40 or x0[2] != 0 or abs(x0[3] - 50000) > 2000:
-                bad += 1
+        for sd in (("grid", 2, 1, 1, 0), ("grid", 3, 1, 1, 1), ("graph", "pair"), ("graph", "triangle")):
+            system = catalogue.build("none", sd)
+            n = 2 * system.space.size()
+            st = vals[:n]
+            system.state = list(st)
+            for opt in ("tauleap", "gillespie"):
+                for seed in range(1, 4):
+                    script = make_script(system, opt, 0.01, policy="on_iteration", isp="Poisson", seed=seed)
+                    data, _ = real_run(script, opt, 0)
+                    x0 = data[:n]
+                    if any((v == 0 and g != 0) or abs(g - v) > 6 * (v ** 0.5) + 1 for v, g in zip(st, x0)):
+                        bad += 1
         return bad > 0
     except Exception:
         return False
@@ -516,7 +522,9 @@ def run(rec):
         # bounded unwinding of the whole function (mixed integer/real queries: many stay inconclusive and are listed as such)
         items += [("induction", 4), ("progress", 4), ("gsd", 2, 1, 2, False), ("gsd", 3, 1, 2, False), ("gsd", 2, 1, 2, True)]
     for option in ("euler", "tauleap", "gillespie"):
-        for sd in (("grid", 2, 1, 1, 0), ("graph", "pair")) + ((("grid", 2, 2, 1, 4), ("graph", "triangle")) if not q else ()):
+        # 2 species on 2 cells is a SQUARE layout (species-major == cell-major up to a transposition that maps the array onto itself
+        # only by luck): 3 cells / 3 nodes are in the quick tier too
+        for sd in (("grid", 2, 1, 1, 0), ("graph", "pair"), ("grid", 3, 1, 1, 1), ("graph", "triangle")) + ((("grid", 2, 2, 1, 4),) if not q else ()):
             for isp in ("none", "auto", "Poisson", "redist"):
                 items.append(("abi", "none", sd, option, isp))
     # 'for a given seed the processing is reproducible': the real redistribution code (entries >= 100: normal branch) run in a second
